@@ -61,6 +61,14 @@
 static jmp_buf test_exit_jmp_buf[10];
 static int jmp_buf_index = 0;
 
+#ifdef CPPUTEST_VERIF_HOOKS
+/* read-only accessor used by the verification harness: current depth of the setjmp stack */
+int PlatformSpecificVerifJumpDepth()
+{
+    return jmp_buf_index;
+}
+#endif
+
 // There is a possibility that a compiler provides fork but not waitpid.
 #if !defined(CPPUTEST_HAVE_FORK) || !defined(CPPUTEST_HAVE_WAITPID) || !defined(CPPUTEST_HAVE_KILL)
 
